@@ -9,6 +9,7 @@ package main
 // the declared description and properties, and the declaring field refers to it.
 
 import (
+	"context"
 	"fmt"
 	"strings"
 
@@ -17,11 +18,14 @@ import (
 	"github.com/pentops/j5/gen/j5/schema/v1/schema_j5pb"
 	"github.com/pentops/j5/gen/j5/sourcedef/v1/sourcedef_j5pb"
 	"github.com/pentops/j5/lib/j5schema"
+	"github.com/pentops/j5/lib/verifshim/compile"
 	"github.com/pentops/j5/lib/verifshim/scha"
+	"github.com/pentops/j5/lib/verifshim/tool"
 	"google.golang.org/protobuf/proto"
 	"google.golang.org/protobuf/reflect/protodesc"
 	"google.golang.org/protobuf/reflect/protoreflect"
 	"google.golang.org/protobuf/reflect/protoregistry"
+	"google.golang.org/protobuf/types/descriptorpb"
 
 	"verifharness/vh"
 )
@@ -427,6 +431,135 @@ func (s NSchema) judge(env EnumEnv, path []string, n *reflNode, res *vh.Result, 
 	}
 }
 
+// ---- second clause for trees: the printed .proto text reflects to the same schemas
+
+// textTree: print the file with the real printer, parse it the way the toolchain reads
+// generated files back, reflect every message of the tree
+func textTree(f protoreflect.FileDescriptor) (n *reflNode, text string, err error) {
+	defer func() {
+		if p := recover(); p != nil {
+			err = fmt.Errorf("panic: %v", p)
+		}
+	}()
+	text, err = compile.PrintFile(context.Background(), f)
+	if err != nil {
+		return nil, text, fmt.Errorf("print: %w", err)
+	}
+	parsed, err := tool.ParseProto(context.Background(), map[string]string{"foo/v1/a.proto": text}, []string{"foo/v1/a.proto"})
+	if err != nil {
+		return nil, text, fmt.Errorf("parse printed text: %w", err)
+	}
+	rf, err := retype(parsed, "foo/v1/a.proto")
+	if err != nil {
+		return nil, text, fmt.Errorf("retype: %w", err)
+	}
+	md := rf.Messages().ByName("Foo")
+	if md == nil {
+		return nil, text, fmt.Errorf("message missing in re-parsed text")
+	}
+	return reflectTree(md), text, nil
+}
+
+// strippedTree: the in-memory tree without the options on the value fields of map entries
+// (what map<,> syntax cannot carry), reflected
+func strippedTree(files []protoreflect.FileDescriptor, path string) (n *reflNode, err error) {
+	defer func() {
+		if p := recover(); p != nil {
+			err = fmt.Errorf("panic: %v", p)
+		}
+	}()
+	set := &descriptorpb.FileDescriptorSet{}
+	var strip func(m *descriptorpb.DescriptorProto)
+	strip = func(m *descriptorpb.DescriptorProto) {
+		for _, x := range m.NestedType {
+			if x.GetOptions().GetMapEntry() {
+				for _, f := range x.Field {
+					if f.GetNumber() == 2 {
+						f.Options = nil
+					}
+				}
+			} else {
+				strip(x)
+			}
+		}
+	}
+	for _, f := range compile.WithDeps(files) {
+		b, err := proto.Marshal(compile.ToProto(f))
+		if err != nil {
+			return nil, err
+		}
+		fdp := &descriptorpb.FileDescriptorProto{}
+		if err := proto.Unmarshal(b, fdp); err != nil {
+			return nil, err
+		}
+		if fdp.GetName() == path {
+			for _, m := range fdp.MessageType {
+				strip(m)
+			}
+		}
+		set.File = append(set.File, fdp)
+	}
+	reg, err := protodesc.NewFiles(set)
+	if err != nil {
+		return nil, err
+	}
+	fd, err := reg.FindFileByPath(path)
+	if err != nil {
+		return nil, err
+	}
+	md := fd.Messages().ByName("Foo")
+	if md == nil {
+		return nil, fmt.Errorf("message missing")
+	}
+	return reflectTree(md), nil
+}
+
+// judgeText: per message of the tree, the schema reflected from the text against the in-memory one
+func judgeText(mem, txt, stripped *reflNode, res *vh.Result, caseNo int, src, text string) {
+	fail := func(sig, got, want string) {
+		res.Fail(vh.Failure{Case: caseNo, Stream: "nested-text", Sig: sig, Clause: "the same schema is obtained from the generated .proto text (inline types)",
+			Input: map[string]any{"j5s": src, "proto": text}, Got: got, Want: want})
+	}
+	if mem.r.obj == nil || txt.r.obj == nil {
+		if (mem.r.obj == nil) != (txt.r.obj == nil) {
+			fail("C04 nested text: a message of the tree reflects from only one of text and memory", fmt.Sprint(txt.r.err, txt.r.panic), fmt.Sprint(mem.r.err, mem.r.panic))
+		}
+		return
+	}
+	res.Count("nested-text-message")
+	if !proto.Equal(mem.r.obj, txt.r.obj) {
+		explained := false
+		if len(mem.r.obj.Properties) == len(txt.r.obj.Properties) && mem.r.obj.Name == txt.r.obj.Name && mem.r.obj.Description == txt.r.obj.Description {
+			explained = true
+			for i := range mem.r.obj.Properties {
+				if proto.Equal(mem.r.obj.Properties[i], txt.r.obj.Properties[i]) {
+					continue
+				}
+				isMap := mem.r.obj.Properties[i].GetSchema().GetMap() != nil
+				if !(isMap && stripped != nil && stripped.r.obj != nil && i < len(stripped.r.obj.Properties) && proto.Equal(stripped.r.obj.Properties[i], txt.r.obj.Properties[i])) {
+					explained = false
+				}
+			}
+		}
+		if explained {
+			fail("C04 text: options on the value field of a map entry cannot be written in map<,> syntax; the printed text reflects exactly as the descriptor without them does", protoString(txt.r.obj), protoString(mem.r.obj))
+		} else {
+			fail("C04 nested text: a schema of the tree reflected from the printed .proto text differs from the in-memory one", protoString(txt.r.obj), protoString(mem.r.obj))
+		}
+	}
+	if len(mem.inner) != len(txt.inner) {
+		fail("C04 nested text: the re-parsed message has another number of nested messages", fmt.Sprint(len(txt.inner)), fmt.Sprint(len(mem.inner)))
+		return
+	}
+	for i := range mem.inner {
+		var st *reflNode
+		if stripped != nil && i < len(stripped.inner) {
+			st = stripped.inner[i]
+		}
+		judgeText(mem.inner[i], txt.inner[i], st, res, caseNo, src, text)
+	}
+}
+
 // runNested: the stream; terms are appended to cf, cases / failures to res
 func runNested(r *vh.Rand, cfg *vh.Config, res *vh.Result, cf *vh.CasesFile, caseNo *int, evals *int) {
 	n := cfg.Scale(50, 800)
@@ -479,6 +612,14 @@ func runNested(r *vh.Rand, cfg *vh.Config, res *vh.Result, cf *vh.CasesFile, cas
 		res.Count("nested")
 		if rt.ok() {
 			s.judge(env, []string{"Foo"}, rt, res, *caseNo, src)
+			// the second clause on the tree
+			if tt, text, err := textTree(c.file); err != nil {
+				res.Fail(vh.Failure{Case: *caseNo, Stream: "nested-text", Sig: "C04 nested text: reflecting the printed .proto text fails: " + firstWords(err.Error(), 8),
+					Clause: "the same schema is obtained from the generated .proto text (inline types)", Input: map[string]any{"j5s": src, "proto": text}, Got: err.Error()})
+			} else {
+				st, _ := strippedTree(c.files, string(c.file.Path()))
+				judgeText(rt, tt, st, res, *caseNo, src, text)
+			}
 		} else {
 			sig := "C04 nested: reflecting the compiled tree fails: " + firstWords(rt.firstErr(), 8)
 			res.Fail(vh.Failure{Case: *caseNo, Stream: "nested", Sig: sig, Clause: "reflection yields the declared schema", Input: input, Got: rt.firstErr()})
